@@ -3,6 +3,7 @@ module jivaverif/harness
 go 1.21
 
 require (
+	github.com/docker/docker v17.12.0-ce-rc1.0.20200531234253-77e06fda0c94+incompatible
 	github.com/openebs/jiva v0.0.0
 	github.com/openebs/sparse-tools v1.1.0
 	github.com/sirupsen/logrus v1.7.0
@@ -11,7 +12,7 @@ require (
 require (
 	github.com/beorn7/perks v1.0.1 // indirect
 	github.com/cespare/xxhash/v2 v2.1.1 // indirect
-	github.com/docker/docker v17.12.0-ce-rc1.0.20200531234253-77e06fda0c94+incompatible // indirect
+	github.com/cpuguy83/go-md2man/v2 v2.0.0-20190314233015-f79a8a8ca69d // indirect
 	github.com/docker/go-units v0.4.0 // indirect
 	github.com/frostschutz/go-fibmap v0.0.0-20160825162329-b32c231bfe6a // indirect
 	github.com/golang/protobuf v1.3.3 // indirect
@@ -20,6 +21,7 @@ require (
 	github.com/gorilla/handlers v1.4.2 // indirect
 	github.com/gorilla/mux v1.7.4 // indirect
 	github.com/gorilla/websocket v1.4.1 // indirect
+	github.com/gostor/gotgt v0.2.1-0.20210817044456-e5d5366e2b59 // indirect
 	github.com/matttproud/golang_protobuf_extensions v1.0.1 // indirect
 	github.com/natefinch/lumberjack v2.0.0+incompatible // indirect
 	github.com/pkg/errors v0.9.1 // indirect
@@ -28,7 +30,10 @@ require (
 	github.com/prometheus/common v0.9.1 // indirect
 	github.com/prometheus/procfs v0.0.8 // indirect
 	github.com/rancher/go-rancher v0.1.1-0.20190307222549-9756097e5e4c // indirect
+	github.com/russross/blackfriday/v2 v2.0.1 // indirect
 	github.com/satori/go.uuid v1.2.0 // indirect
+	github.com/shurcooL/sanitized_anchor_name v1.0.0 // indirect
+	github.com/urfave/cli v1.22.3 // indirect
 	go.uber.org/atomic v1.6.0 // indirect
 	go.uber.org/multierr v1.5.0 // indirect
 	go.uber.org/zap v1.14.1 // indirect
